@@ -872,7 +872,7 @@ func init() {
 			}
 			deadline := r.Deadline(6*time.Minute, 40*time.Minute)
 			for _, c := range cfgs {
-				sr := engine.Search(&spec{cfg: c}, engine.SearchOpts{Depth: c.Depth, Deadline: deadline, KeyStores: keyStores})
+				sr := engine.Search(&spec{cfg: c}, engine.SearchOpts{Depth: c.Depth, Deadline: deadline, KeyStores: keyStores, MaxViol: 4096})
 				r.AddSearch(c.Name, c, sr)
 			}
 			r.ConfirmViolations(mkSpec)
